@@ -133,6 +133,12 @@ func c09Scenarios(thorough bool) []*Scenario {
 				w.devices["T1"].script = []codes.Code{codes.InvalidArgument}
 			},
 			Requests: []SetReqOrCall{a("1"), a("2")}},
+		{Name: "S8 rollback of a missing index, then a Set, connected", Cfg: WorldConfig{Targets: []string{"T1"}}, Init: connectAll("T1"),
+			Requests: []SetReqOrCall{rollbackReq("rollback(7)", 7), a("1")}},
+		{Name: "S5two two Sets on T1 offline, then the device connects", Cfg: WorldConfig{Targets: []string{"T1"}},
+			Requests: []SetReqOrCall{a("1"), setReq("T1.leafA2=2", upd("T1", "/cont/leafA2", "2"))}, Faults: []FaultSpec{faultConnUp("T1")}, FaultBudget: 1},
+		{Name: "S9 Set on T1, Set on T2, Set on T1 (non-consecutive indexes per target), offline", Cfg: WorldConfig{Targets: []string{"T1", "T2"}}, MaxStates: 150000,
+			Requests: []SetReqOrCall{a("1"), setReq("T2.leafA=2", upd("T2", "/cont/leafA", "2")), a("3")}},
 		{Name: "S6u two Sets on T1, device unavailable once", Cfg: WorldConfig{Targets: []string{"T1"}},
 			Init: func(w *World) {
 				connectAll("T1")(w)
@@ -154,7 +160,7 @@ func checkC09(rc *RunCtx) *Report {
 		// the quick tier keeps the scenarios whose work-set graph stays below ~25 000 states
 		var small []*Scenario
 		for _, s := range scs {
-			if strings.HasPrefix(s.Name, "S1 ") || strings.HasPrefix(s.Name, "S7b") || strings.HasPrefix(s.Name, "S7c") {
+			if strings.HasPrefix(s.Name, "S1 ") || strings.HasPrefix(s.Name, "S7b") || strings.HasPrefix(s.Name, "S7c") || strings.HasPrefix(s.Name, "S9 ") || strings.HasPrefix(s.Name, "S5two") {
 				continue
 			}
 			small = append(small, s)
@@ -182,6 +188,11 @@ func checkC09(rc *RunCtx) *Report {
 			x.Run()
 			cands.resolve(x, rep, sc)
 			fmt.Printf("C09 %-50s states=%d transitions=%d idle=%d depth=%d capped=%v probes=%d conflicts=%d\n", sc.Name, x.States, x.Transitions, x.IdleStates, x.MaxDepth, x.Capped, probes, x.conflicts)
+			if n, diff := x.ValidateOnRealAtomix(envInt("VERIF_VALIDATE", 3)); diff != "" {
+				rep.HarnessErr = "trace validation on the real atomix runtime: " + diff
+			} else {
+				out.Numbers["traces_validated"] += int64(n)
+			}
 			out.Numbers["states"] += int64(x.States)
 			out.Numbers["transitions"] += int64(x.Transitions)
 			out.Numbers["idle_states"] += int64(x.IdleStates)
